@@ -1,6 +1,6 @@
-Require Import Regex Tok Engine Prefix Lines Model Deriv DfaCheck Cache Tree Refactor Issues Nav EndPos.
+Require Import Regex Tok Engine Prefix Lines LinesDrop Model Deriv DfaCheck Cache Tree Refactor Issues Nav EndPos.
 Definition cache_run (fixA fixB : bool) (h : list Cache.op) : list (nat * nat) := Cache.run (fun k => k) fixA fixB (Cache.mkS 0 None None) h.
 From Coq Require Extraction ExtrOcamlBasic.
 Extraction Blacklist String List Bool.
 Extraction "model.ml" Model.run_tok Model.run_resume_points Model.tokenize_text Model.parse_tokens Model.parse_text Model.plan_table
-  Model.split_prefix_m Model.regex_by_id Regex.rmatch Lines.split_keep Prefix.part_end Prefix.spacing_part DfaCheck.check_rule cache_run Refactor.refactor Tree.get_code Issues.add_issue Issues.err_add Issues.finalize Nav.leaf_paths Nav.get_next_leaf Nav.get_previous_leaf Nav.nav_lookup Nav.nav_end Nav.pos_leb Nav.first_leaf_path Nav.last_leaf_path EndPos.end_pos.
+  Model.split_prefix_m Model.regex_by_id Regex.rmatch Lines.split_keep LinesDrop.split_plain Prefix.part_end Prefix.spacing_part DfaCheck.check_rule cache_run Refactor.refactor Tree.get_code Issues.add_issue Issues.err_add Issues.finalize Nav.leaf_paths Nav.get_next_leaf Nav.get_previous_leaf Nav.nav_lookup Nav.nav_end Nav.pos_leb Nav.first_leaf_path Nav.last_leaf_path EndPos.end_pos.
